@@ -31,10 +31,11 @@ theorem C19_space_mirror (ops : List Op) (a c : Nat) (ar : AgentRec) (cr : CellR
     cases har'
     exact hx
 
-/-- **Capacities, after any history.**  A cell with a (non-zero) capacity never holds more agents than that. -/
+/-- **Capacities, after any history.**  A cell with a capacity never holds more agents than that (capacity 0 included, after
+    the repair SC3: such a cell stays empty). -/
 theorem C19_space_capacity (ops : List Op) (c k : Nat) (cr : CellRec)
-    (hc : (run init ops).cells c = some cr) (hk : cr.cap = some k) (hk0 : k ≠ 0) : cr.agents.length ≤ k :=
-  (reachable ops).2.capOk c cr k hc hk hk0
+    (hc : (run init ops).cells c = some cr) (hk : cr.cap = some k) : cr.agents.length ≤ k :=
+  (reachable ops).2.capOk c cr k hc hk
 
 /-- **Closure, after any history.**  Every pointer of a space stays inside it: each of its cells exists, is connected to
     cells of the same space only, lists agents registered in the space's model only, uses the space's own generator and (if it
